@@ -212,6 +212,9 @@ def install(eng):
             return one(st, Mat(3, 1, [(F(dh(x.v, n.v), b_or(x.poison(), n.poison(), n.v == 0)) if dh is not None and dh(x.v, n.v) is not None else fop('Div', x, n)) for x in v.d]))
         if re.search(r'::cross$', g): return one(st, cross(D(st, a[0]), D(st, a[1])))
         if re.search(r'::dot$', g): return one(st, dot(D(st, a[0]), D(st, a[1])))
+        if re.search(r'<impl UQ>::euler_angles$|Rot3::euler_angles$', g):
+            n = len(getattr(e, '_euler', [])); e._euler = getattr(e, '_euler', []) + [D(st, a[0])]
+            return one(st, Agg([F(z3.Real(f'euler{n}_{k}')) for k in range(3)]))      # some function of the rotation, NOT its log map: nothing is assumed about it
         # --- indexing ---
         if re.search(r'^<(Rot3|M3|UQ) as std::ops::Index<\(usize, usize\)>>::index$', g):
             ij = a[1]; i, j = ij.items
